@@ -303,3 +303,19 @@ Definition well_nested (toks : list tok) : bool := balanced_sk [] (skeleton toks
 Definition templates_nested (ts : list (list piece)) (codes locs : list str) : bool :=
   forallb (fun t => forallb (fun c => forallb (fun l => well_nested (tokenize (exception_doc_raw t [] c l)))
                                               (opt_strs locs)) (opt_strs codes)) ts.
+
+(* ---------------------------------------------------------------- documents with several insertion points *)
+(* A document whose text is fixed except that one request-derived value is inserted at several places
+   (capabilities documents: the escaped host URL of the request).  Ins marks an insertion point. *)
+Inductive seg := Fix (s : str) | Ins.
+Definition fill (segs : list seg) (u : str) : str :=
+  flat_map (fun g => match g with Fix s => s | Ins => u end) segs.
+
+(* kind of a token, without its text *)
+Inductive kind := KText | KTag | KOpen.
+Definition tok_kind (t : tok) : kind := match t with Text _ => KText | Tag _ => KTag | Open _ => KOpen end.
+Definition shape (l : list tok) : list kind := map tok_kind l.
+Definition kind_code (k : kind) : Z := match k with KText => 0 | KTag => 1 | KOpen => 2 end.
+Definition markup_freeb (s : str) : bool :=
+  forallb (fun c => negb ((c =? c_lt) || (c =? c_gt) || (c =? c_quot) || (c =? c_apos))) s.
+Definition valid_mode (m : mode) : Prop := match m with MQuote q => is_quote q = true | _ => True end.
